@@ -169,9 +169,12 @@ class Harness:
                 if e.get("user"):
                     vopts["user_render_func"] = cbs["user_render_func"]
                 options[Vertex] = vopts
+                # the default ".+" would print every attribute dir() finds,
+                # class-level tables and bound-method addresses included:
+                # process-global state, not a function of the graph
+                vopts["show_attrs"] = ["^sim_tag$", "^colour$"]
                 if e.get("title"):
                     vopts["title_format"] = "{sim_tag}"
-                    vopts["show_attrs"] = ["sim_tag"]
                 ret = plantuml.render_to_plantuml_src(ex.g(e["u"]), options)
                 ret = self.scrub(ret)
                 if isinstance(ret, str):
@@ -189,6 +192,11 @@ class Harness:
         except O._Missing:  # pylint: disable=protected-access
             raise
         except Exception as exc:  # pylint: disable=broad-except
+            if k == "plantuml" and not isinstance(exc, InjectedFault):
+                # links are rendered in the iteration order of an
+                # identity-hashed set, i.e. in memory-address order: WHICH
+                # ill-formed link raises first is not a function of the graph
+                return {"exc": "<raised>"}
             return {"exc": type(exc).__name__}
 
     def scrub(self, text):
@@ -196,9 +204,20 @@ class Harness:
         if not isinstance(text, str):
             return text
         w = self.ex.w
+        # the PlantUML banner carries the wall-clock time at which the module
+        # was imported: a clock read, constant within a process but not across
+        # processes -- kept out of logs and comparisons
+        note = getattr(plantuml, "PLANTUML_AUTOGEN_NOTE", None)
+        if isinstance(note, str) and note:
+            text = text.replace(note, "\n<autogen-note>\n")
+        # longest first, so that one address can never be rewritten as the
+        # prefix of another
+        pairs = []
         for lab, obj in w.objs.items():
-            text = text.replace(repr(obj), f"@{lab}")
-            text = text.replace(hex(id(obj)), f"@{lab}")
+            pairs.append((repr(obj), lab))
+            pairs.append((hex(id(obj)), lab))
+        for needle, lab in sorted(pairs, key=lambda p: -len(p[0])):
+            text = text.replace(needle, f"@{lab}")
         return text
 
     def norm_net(self, net):
